@@ -293,6 +293,21 @@ func c17Levels(tier string) []core.Level {
 			for i := range c17OnceTpls {
 				emit(core.Case{Fam: "once", Src: c17OnceTpls[i], Args: []string{"once"}, N: []int{i}})
 			}
+			// histories on one environment: failing templates loaded three times (directly, included, safe); ExecuteSafe failing after 1..3, 100 complete renderings
+			prep()
+			for _, b := range bases {
+				if strings.HasPrefix(b.it.Name, "fail:") {
+					emit(core.Case{Fam: "twice", Src: b.it.Src, Args: []string{b.it.Name}})
+				}
+			}
+			for _, src := range c17Broken {
+				emit(core.Case{Fam: "twice", Src: src, Args: []string{"broken"}})
+			}
+			for k := 0; k < 4; k++ {
+				for _, n := range []int{1, 2, 3, 100} {
+					emit(core.Case{Fam: "safememo", Src: "safememo", Args: []string{"safememo"}, N: []int{k, n}})
+				}
+			}
 			// 12 renderings cut short by a panic in a host callback: never reported as success
 			for i := range c17PanicTpls {
 				emit(core.Case{Fam: "hostpanic", Src: c17PanicTpls[i], Args: []string{"hostpanic"}, N: []int{i}})
@@ -601,6 +616,113 @@ func c17Run(c core.Case) core.Result {
 			return core.Violation("safe-wrote-on-failure", fmt.Sprintf("ExecuteSafe of %q with load %d failing: err=%v, wrote %q", name, j, s.err, s.w.chunks))
 		}
 		return core.Okay(true, fmt.Sprint(r.w.accepted.String(), j))
+	case "twice":
+		// the same failing template loaded again on the same environment (directly, through include, through
+		// ExecuteSafe): it fails every time, and what is written is a prefix every time
+		tpls := c17Tpls_(c.Src)
+		tpls["wrap"] = "w[{% include 'main' %}]"
+		env := stick.New(&stick.MemoryLoader{Templates: tpls})
+		addStdCallbacks(env)
+		firstOut := map[string]string{}
+		for round := 1; round <= 3; round++ {
+			for _, entry := range []string{"main", "wrap"} {
+				for _, safe := range []bool{false, true} {
+					var buf bytes.Buffer
+					var err error
+					pan := ""
+					func() {
+						defer func() {
+							if p := recover(); p != nil {
+								pan = panicInfo(p)
+							}
+						}()
+						if safe {
+							err = env.ExecuteSafe(entry, &buf, stdCtx())
+						} else {
+							err = env.Execute(entry, &buf, stdCtx())
+						}
+					}()
+					if pan != "" {
+						return core.Violation("panic", fmt.Sprintf("%q (%s, safe=%v, round %d) panicked: %s", c.Src, entry, safe, round, pan))
+					}
+					if err == nil {
+						return core.Violation("error-swallowed", fmt.Sprintf("%q cannot be parsed or executed to the end; loaded for the %d. time on one environment (%s, safe=%v) it returns nil and writes %q", c.Src, round, entry, safe, buf.String()))
+					}
+					if safe && buf.Len() > 0 {
+						return core.Violation("safe-wrote-on-failure", fmt.Sprintf("ExecuteSafe of %q (%s, round %d) wrote %q", c.Src, entry, round, buf.String()))
+					}
+					key := fmt.Sprint(entry, safe)
+					if round == 1 {
+						firstOut[key] = buf.String()
+					} else if buf.String() != firstOut[key] {
+						return core.Violation("not-a-prefix", fmt.Sprintf("%q (%s, safe=%v): round 1 wrote %q, round %d wrote %q", c.Src, entry, safe, firstOut[key], round, buf.String()))
+					}
+				}
+			}
+		}
+		return core.Okay(true, "fails-every-time")
+	case "safememo":
+		// ExecuteSafe on one environment: complete renderings first, then the same template failing (another context
+		// value, an included template gone from the loader, a host function that fails now): nothing is written
+		k := c.N[0]
+		tpls := map[string]string{"inc": "I", "main": []string{
+			"before|{{ 10 / d }}|{% if d == 0 %}{{ 1 % d }}{% endif %}after",
+			"a{% for i in l %}{{ i }}{% endfor %}{% include 'inc' %}b",
+			"x{{ flaky() }}y{{ flaky() }}z",
+			"{% extends 'base2' %}{% block a %}o{{ 10 // d }}{% if d == 0 %}{{ nofunc() }}{% endif %}{% endblock %}",
+		}[k], "base2": "B<{% block a %}{% endblock %}>"}
+		failNow := false
+		env := stick.New(&stick.MemoryLoader{Templates: tpls})
+		env.Functions["flaky"] = func(ctx stick.Context, args ...stick.Value) stick.Value {
+			if failNow {
+				panic("flaky host function")
+			}
+			return "f"
+		}
+		run := func(ctx map[string]stick.Value) (string, error, bool) {
+			var buf bytes.Buffer
+			var err error
+			panicked := false
+			func() {
+				defer func() {
+					if recover() != nil {
+						panicked = true
+					}
+				}()
+				err = env.ExecuteSafe("main", &buf, ctx)
+			}()
+			return buf.String(), err, panicked
+		}
+		okCtx := map[string]stick.Value{"d": 2, "l": []stick.Value{1, 2}}
+		var first string
+		for i := 0; i < c.N[1]; i++ {
+			out, err, pn := run(okCtx)
+			if err != nil || pn {
+				return core.Violation("error", fmt.Sprintf("%q with %v: %v", tpls["main"], okCtx, err))
+			}
+			if i == 0 {
+				first = out
+			} else if out != first {
+				return core.Violation("safe-differs", fmt.Sprintf("ExecuteSafe of %q: rendering %d gives %q, the first %q", tpls["main"], i+1, out, first))
+			}
+		}
+		badCtx := map[string]stick.Value{"d": 0, "l": 5}
+		switch k {
+		case 1:
+			delete(tpls, "inc")
+			badCtx = okCtx
+		case 2:
+			failNow = true
+			badCtx = okCtx
+		}
+		out, err, pn := run(badCtx)
+		if err == nil && !pn {
+			return core.Violation("error-swallowed", fmt.Sprintf("ExecuteSafe of %q after %d complete renderings: the failing call returned nil and wrote %q", tpls["main"], c.N[1], out))
+		}
+		if out != "" {
+			return core.Violation("safe-wrote-on-failure", fmt.Sprintf("ExecuteSafe of %q: after %d complete renderings on the same environment a failing call (%v) wrote %q", tpls["main"], c.N[1], err, out))
+		}
+		return core.Okay(true, "nothing-written")
 	case "hostpanic":
 		// a callback of the host panics in the middle of a rendering: the panic reaches the caller or is reported as an
 		// error - the call never returns nil as if the (truncated) output were complete
